@@ -57,7 +57,7 @@ type Prop struct{}
 func (Prop) ID() string { return "C16" }
 func (Prop) Size(tier string) int {
 	if tier == "thorough" {
-		return 150000
+		return 100000
 	}
 	return 2500
 }
